@@ -54,6 +54,11 @@ func belongs(prop string, u *UnitResult, o *Obligation, clauseProps []string) bo
 	if len(clauseProps) > 0 {
 		return has(clauseProps, prop)
 	}
+	if u.fc != nil && u.fc.ClaimOnly {
+		// "claimonly" unit: only clauses tagged with a property (and must-use obligations) are claimed; the unit's
+		// other obligations are generated and solved but belong to no property
+		return strings.HasPrefix(o.Kind, "mustuse") && prop == "C14"
+	}
 	if u.fc != nil && u.fc.Unclaimed != nil {
 		if _, un := u.fc.Unclaimed[o.Kind]; un {
 			return false
@@ -351,7 +356,7 @@ func checkRegistry(o *options, all []oblOut) []string {
 func registrable(kind string) bool {
 	// labelled obligations that come from contract clauses; call-site and fork/join obligations depend on the
 	// shape of the body and may legitimately disappear with it
-	return kind == "ensures" || kind == "lemma" || strings.HasPrefix(kind, "invariant.") || kind == "decreases" ||
+	return kind == "ensures" || kind == "lemma" || strings.HasPrefix(kind, "invariant.") || kind == "decreases" || kind == "loop.step" ||
 		kind == "nopanic" || strings.HasPrefix(kind, "guard")
 }
 
